@@ -1,0 +1,138 @@
+//! Verification hook (only compiled with `--cfg prometheus_verif`).
+//!
+//! Drop-in wrappers for the atomics and locks the crate uses. Every operation
+//! reports to a per-thread hook before it executes (the hook may block the
+//! thread, which lets a test harness decide the interleaving) and after it
+//! executed (with its result). Without an installed hook the wrappers are
+//! plain pass-throughs.
+#![allow(missing_docs)]
+use std::cell::RefCell;
+use std::ops::{Deref, DerefMut};
+pub use std::sync::atomic::Ordering;
+use std::sync::atomic::{AtomicBool, AtomicI64 as SI64, AtomicU64 as SU64};
+
+#[derive(Debug, Clone, Copy, PartialEq, Eq)]
+pub enum Kind { Load, Store, FetchAdd, FetchSub, Swap, Cas, Lock, Unlock, RLock, RUnlock, WLock, WUnlock }
+
+#[derive(Debug, Clone)]
+pub struct Event { pub addr: usize, pub kind: Kind, pub ord: Ordering, pub a: u64, pub b: u64 }
+
+pub trait Hook {
+    /// called before the operation; may block. Returns true to make a weak CAS fail spuriously.
+    fn pre(&self, ev: &Event) -> bool;
+    fn post(&self, ev: &Event, result: u64, ok: bool);
+}
+
+thread_local! { static HOOK: RefCell<Option<Box<dyn Hook>>> = RefCell::new(None); }
+
+pub fn set_hook(h: Option<Box<dyn Hook>>) { HOOK.with(|c| *c.borrow_mut() = h); }
+
+fn pre(ev: &Event) -> bool { HOOK.with(|c| c.borrow().as_ref().map(|h| h.pre(ev)).unwrap_or(false)) }
+fn post(ev: &Event, r: u64, ok: bool) { HOOK.with(|c| if let Some(h) = c.borrow().as_ref() { h.post(ev, r, ok) }) }
+
+#[derive(Debug)]
+pub struct AtomicU64(SU64);
+impl AtomicU64 {
+    pub const fn new(v: u64) -> Self { AtomicU64(SU64::new(v)) }
+    fn ev(&self, kind: Kind, ord: Ordering, a: u64, b: u64) -> Event { Event { addr: self as *const _ as usize, kind, ord, a, b } }
+    pub fn load(&self, o: Ordering) -> u64 { let e = self.ev(Kind::Load, o, 0, 0); pre(&e); let r = self.0.load(o); post(&e, r, true); r }
+    pub fn store(&self, v: u64, o: Ordering) { let e = self.ev(Kind::Store, o, v, 0); pre(&e); self.0.store(v, o); post(&e, 0, true) }
+    pub fn fetch_add(&self, v: u64, o: Ordering) -> u64 { let e = self.ev(Kind::FetchAdd, o, v, 0); pre(&e); let r = self.0.fetch_add(v, o); post(&e, r, true); r }
+    pub fn fetch_sub(&self, v: u64, o: Ordering) -> u64 { let e = self.ev(Kind::FetchSub, o, v, 0); pre(&e); let r = self.0.fetch_sub(v, o); post(&e, r, true); r }
+    pub fn swap(&self, v: u64, o: Ordering) -> u64 { let e = self.ev(Kind::Swap, o, v, 0); pre(&e); let r = self.0.swap(v, o); post(&e, r, true); r }
+    pub fn compare_exchange_weak(&self, cur: u64, new: u64, s: Ordering, f: Ordering) -> Result<u64, u64> {
+        let e = self.ev(Kind::Cas, s, cur, new);
+        let spurious = pre(&e);
+        let r = if spurious { Err(self.0.load(f)) } else { self.0.compare_exchange(cur, new, s, f) };
+        match r { Ok(v) => post(&e, v, true), Err(v) => post(&e, v, false) }
+        r
+    }
+}
+#[derive(Debug)]
+pub struct AtomicI64(SI64);
+impl AtomicI64 {
+    pub const fn new(v: i64) -> Self { AtomicI64(SI64::new(v)) }
+    fn ev(&self, kind: Kind, ord: Ordering, a: u64, b: u64) -> Event { Event { addr: self as *const _ as usize, kind, ord, a, b } }
+    pub fn load(&self, o: Ordering) -> i64 { let e = self.ev(Kind::Load, o, 0, 0); pre(&e); let r = self.0.load(o); post(&e, r as u64, true); r }
+    pub fn store(&self, v: i64, o: Ordering) { let e = self.ev(Kind::Store, o, v as u64, 0); pre(&e); self.0.store(v, o); post(&e, 0, true) }
+    pub fn fetch_add(&self, v: i64, o: Ordering) -> i64 { let e = self.ev(Kind::FetchAdd, o, v as u64, 0); pre(&e); let r = self.0.fetch_add(v, o); post(&e, r as u64, true); r }
+    pub fn fetch_sub(&self, v: i64, o: Ordering) -> i64 { let e = self.ev(Kind::FetchSub, o, v as u64, 0); pre(&e); let r = self.0.fetch_sub(v, o); post(&e, r as u64, true); r }
+}
+
+/// Mutex with the `std::sync::Mutex` surface the crate uses.
+#[derive(Debug)]
+pub struct Mutex<T> { held: AtomicBool, v: std::cell::UnsafeCell<T> }
+unsafe impl<T: Send> Sync for Mutex<T> {}
+unsafe impl<T: Send> Send for Mutex<T> {}
+#[derive(Debug)]
+pub struct MutexGuard<'a, T> { m: &'a Mutex<T> }
+#[derive(Debug)]
+pub struct Poison;
+impl<T> Mutex<T> {
+    pub fn new(v: T) -> Self { Mutex { held: AtomicBool::new(false), v: std::cell::UnsafeCell::new(v) } }
+    pub fn lock(&self) -> Result<MutexGuard<'_, T>, Poison> {
+        let e = Event { addr: self as *const _ as usize, kind: Kind::Lock, ord: Ordering::Acquire, a: 0, b: 0 };
+        loop {
+            pre(&e);
+            if self.held.compare_exchange(false, true, Ordering::Acquire, Ordering::Relaxed).is_ok() { post(&e, 0, true); return Ok(MutexGuard { m: self }); }
+            post(&e, 0, false);
+            std::thread::yield_now();
+        }
+    }
+}
+impl<T> Drop for MutexGuard<'_, T> {
+    fn drop(&mut self) {
+        let e = Event { addr: self.m as *const _ as usize, kind: Kind::Unlock, ord: Ordering::Release, a: 0, b: 0 };
+        pre(&e); self.m.held.store(false, Ordering::Release); post(&e, 0, true);
+    }
+}
+impl<T> Deref for MutexGuard<'_, T> { type Target = T; fn deref(&self) -> &T { unsafe { &*self.m.v.get() } } }
+impl<T> DerefMut for MutexGuard<'_, T> { fn deref_mut(&mut self) -> &mut T { unsafe { &mut *self.m.v.get() } } }
+
+/// RwLock with the `parking_lot::RwLock` surface the crate uses.
+#[derive(Debug)]
+pub struct RwLock<T> { state: std::sync::atomic::AtomicI64, v: std::cell::UnsafeCell<T> }
+unsafe impl<T: Send + Sync> Sync for RwLock<T> {}
+unsafe impl<T: Send> Send for RwLock<T> {}
+#[derive(Debug)]
+pub struct RwLockReadGuard<'a, T> { l: &'a RwLock<T> }
+#[derive(Debug)]
+pub struct RwLockWriteGuard<'a, T> { l: &'a RwLock<T> }
+impl<T> RwLock<T> {
+    pub fn new(v: T) -> Self { RwLock { state: std::sync::atomic::AtomicI64::new(0), v: std::cell::UnsafeCell::new(v) } }
+    pub fn read(&self) -> RwLockReadGuard<'_, T> {
+        let e = Event { addr: self as *const _ as *const u8 as usize, kind: Kind::RLock, ord: Ordering::Acquire, a: 0, b: 0 };
+        loop {
+            pre(&e);
+            let s = self.state.load(Ordering::Relaxed);
+            if s >= 0 && self.state.compare_exchange(s, s + 1, Ordering::Acquire, Ordering::Relaxed).is_ok() { post(&e, 0, true); return RwLockReadGuard { l: self }; }
+            post(&e, 0, false);
+            std::thread::yield_now();
+        }
+    }
+    pub fn write(&self) -> RwLockWriteGuard<'_, T> {
+        let e = Event { addr: self as *const _ as *const u8 as usize, kind: Kind::WLock, ord: Ordering::Acquire, a: 0, b: 0 };
+        loop {
+            pre(&e);
+            if self.state.compare_exchange(0, -1, Ordering::Acquire, Ordering::Relaxed).is_ok() { post(&e, 0, true); return RwLockWriteGuard { l: self }; }
+            post(&e, 0, false);
+            std::thread::yield_now();
+        }
+    }
+}
+impl<T: Default> Default for RwLock<T> { fn default() -> Self { RwLock::new(T::default()) } }
+impl<T> Drop for RwLockReadGuard<'_, T> {
+    fn drop(&mut self) {
+        let e = Event { addr: self.l as *const _ as *const u8 as usize, kind: Kind::RUnlock, ord: Ordering::Release, a: 0, b: 0 };
+        pre(&e); self.l.state.fetch_sub(1, Ordering::Release); post(&e, 0, true);
+    }
+}
+impl<T> Drop for RwLockWriteGuard<'_, T> {
+    fn drop(&mut self) {
+        let e = Event { addr: self.l as *const _ as *const u8 as usize, kind: Kind::WUnlock, ord: Ordering::Release, a: 0, b: 0 };
+        pre(&e); self.l.state.store(0, Ordering::Release); post(&e, 0, true);
+    }
+}
+impl<T> Deref for RwLockReadGuard<'_, T> { type Target = T; fn deref(&self) -> &T { unsafe { &*self.l.v.get() } } }
+impl<T> Deref for RwLockWriteGuard<'_, T> { type Target = T; fn deref(&self) -> &T { unsafe { &*self.l.v.get() } } }
+impl<T> DerefMut for RwLockWriteGuard<'_, T> { fn deref_mut(&mut self) -> &mut T { unsafe { &mut *self.l.v.get() } } }
